@@ -81,3 +81,54 @@ func VerifH_serveHTTP_clientstream() {
 	vfCheck(srv.recvErr != nil && srv.recvErr.Error() == "EOF", "the message sequence was not followed by a clean end of stream")
 	vfCheck(vfBytesEq(w.body, []byte("REPLY")), "the reply did not reach the client")
 }
+
+func init() {
+	vfHarnesses["VerifH_serveHTTP_serverstream"] = VerifH_serveHTTP_serverstream
+}
+
+// VerifH_serveHTTP_serverstream (C06): a server-streaming method over plain HTTP through ServeHTTP:
+// the handler sends j replies (symbolic bytes, empty ones included) and then succeeds or fails; the
+// response body is exactly the j replies in the codec's stream framing, in order, nothing after them
+// that could be mistaken for a message when the handler succeeded.
+func VerifH_serveHTTP_serverstream() {
+	in := schemaRoute()
+	out := newFakeMD("vf.Resp", strField("r"))
+	rule := vfHTTPRule("GET", "/dn/{f}")
+	md := &fakeMethod{full: "vf.S.Dn", in: in, out: out, ss: true, opts: &fakeOpts{rule: rule}}
+	svc := &fakeSvc{full: "vf.S", methods: &fakeMethodList{list: []*fakeMethod{md}}}
+	rec := &fakeCodec{name: "fake"}
+	mux, err := NewMux(FilesOption(vfRegistry(svc)), CodecOption("application/x", fakeStreamCodec{rec, CodecProto{}}))
+	if err != nil {
+		vfFail("NewMux failed")
+	}
+	srv := &vfStreamSrv{in: in}
+	j := vfLen(2)
+	var want []byte
+	sink := &vfSink{}
+	for i := 0; i < j; i++ {
+		rp := newFakeMsg(out)
+		rp.payload = vfBytes(vfLen(2))
+		srv.replies = append(srv.replies, rp)
+		CodecProto{}.WriteNext(sink, rp.payload)
+	}
+	want = sink.buf
+	sd := &grpc.ServiceDesc{ServiceName: "vf.S", Streams: []grpc.StreamDesc{{StreamName: "Dn", Handler: vfStreamHandler, ServerStreams: true}}}
+	if err := mux.registerService(sd, srv); err != nil {
+		vfFail("registerService failed: " + err.Error())
+	}
+	r := &http.Request{Method: "GET", URL: &url.URL{Path: "/dn/zz"},
+		Header: http.Header{"Accept": []string{"application/x"}}, Body: vfNopCloser{&vfWholeReader{}}, ProtoMajor: 1, ProtoMinor: 1}
+	w := newFakeRW()
+	mux.ServeHTTP(w, r)
+	w.finish()
+	vfCheck(srv.calls == 1, "stream handler not invoked exactly once")
+	vfCheck(len(srv.got) == 1, "the handler of a server-streaming call did not receive exactly one request message")
+	vfCheck(w.status == 200, "a successful server-streaming call was not answered 200")
+	vfCheck(vfBytesEq(w.body, want), "the response body is not exactly the handler's replies in stream framing, in order")
+	if j == 2 {
+		vfCover("two-replies")
+	}
+	if j == 0 {
+		vfCover("no-reply")
+	}
+}
